@@ -104,3 +104,54 @@ Definition fc_builder_agrees (x : full_case) : bool :=
 (* inside the guard of theorem C03b_eventgen_matches_metadata (the oracle's guard plus: no sequence groups) *)
 Definition fc_in_theorem_guard (x : full_case) : bool :=
   let '(_, _, D, _, _) := x in fc_in_guard x && no_sequences D.
+
+(* ---------------------------------------------------------------- compound fields over class hierarchies *)
+(* Independent reading of XmlVar.find_clazz_choice's documented "best matches" (1. the class is
+   explicitly listed in a choice, 2. the class derives from a listed class): the element of a
+   compound item that is a model instance.  Judged on the implementation's events for the
+   hand-written hierarchy models (root = one compound field): the names of the root's child
+   elements must be these. *)
+Definition lists_exact (c : cls) (e : xvar) : bool :=
+  match v_clazz e with Some _ => existsb (ptype_eqb (TClass c)) (v_types e) | None => false end.
+Definition lists_base (u : universe) (c : cls) (e : xvar) : bool :=
+  match v_clazz e with
+  | Some _ => existsb (fun t => match t with TClass d => is_subclass u c d | _ => false end) (v_types e)
+  | None => false
+  end.
+Definition expected_choice (u : universe) (var : xvar) (c : cls) : option xvar :=
+  match find (fun qe => lists_exact c (snd qe)) (v_elements var) with
+  | Some qe => Some (snd qe)
+  | None => option_map snd (find (fun qe => lists_base u c (snd qe)) (v_elements var))
+  end.
+
+(* names of the depth-1 children of the document element *)
+Fixpoint child_names (depth : nat) (evs : list wevent) : list qname :=
+  match evs with
+  | [] => []
+  | WStart q :: r => (if Nat.eqb depth (S O) then [q] else []) ++ child_names (S depth) r
+  | WEnd _ :: r => child_names (Nat.pred depth) r
+  | _ :: r => child_names depth r
+  end.
+
+Definition oracle_compound_names (x : full_case) : bool :=
+  let '(_, u, _, _, k) := x in
+  match gc_value k, gc_observed k with
+  | VObj c [(_, items)], Ok evs =>
+      match u_meta u c with
+      | Some meta =>
+          match m_choices meta with
+          | [var] =>
+              let its := match items with VList _ l => l | VNone => [] | x => [x] end in
+              let want := map (fun it => match it with
+                                         | VObj ci _ => option_map v_qname (expected_choice u var ci)
+                                         | _ => None
+                                         end) its in
+              if forallb (fun o => match o with Some _ => true | None => false end) want
+              then list_eqb str_eqb (child_names O evs) (flat_map (fun o => match o with Some q => [q] | None => [] end) want)
+              else true
+          | _ => true
+          end
+      | None => true
+      end
+  | _, _ => true
+  end.
